@@ -48,6 +48,8 @@ ACCESS = [
     ("shared", r"self\.graphs\.remove_nodes_from\(\w+\)", ["del 1"]),
     ("shared", r"self\.graphs\.clear\(\)", ["delAll"]),
     ("shared", r"return self\.graphs", ["rdg"]),
+    ("shared", r"return (len|bool)\(self\.graphs\)", ["rdg"]),
+    ("disjoint", r"return (len|bool)\(self\.graphs\)", ["rdg"]),
     ("shared", r"temp_graph = nx\.convert_node_labels_to_integers\(graph, first_label=self\.start_id\)", ["read 0!"]),
     ("shared", r"self\.start_id = self\.start_id \+ len\(temp_graph\.nodes\(\)\)", ["bump 0 %d!" % K]),
     ("shared", r"self\.start_id \+= len\(temp_graph\.nodes\(\)\)", ["bump 0 %d!" % K]),
@@ -286,6 +288,66 @@ def _check_init(flavour, cls):
         raise ExtractionError("%s store __init__: self.lock is not a threading.Lock" % flavour)
 
 
+def _singleton(flavour, tree, oc, cls):
+    """The shell's creation idiom.  Recognised:
+         storage_instance = None
+         def __init__(self, logger=None):
+             if not <Shell>.storage_instance:   |   if <Shell>.storage_instance is None:
+                 <Shell>.storage_instance = <Shell>.__NetworkXGraphStorage(...)
+         def __getattr__(self, name): return getattr(self.storage_instance, name)
+       and no other assignment to storage_instance, to self.lock or call of self.__init__ anywhere in the module.
+       -> dict(test_is_none, falsy_capable, weak, guard_line, first, last)"""
+    outer = oc.name
+    members = {}
+    for n in oc.body:
+        if isinstance(n, ast.Assign) and len(n.targets) == 1 and isinstance(n.targets[0], ast.Name):
+            members[n.targets[0].id] = n
+        elif isinstance(n, ast.FunctionDef):
+            members[n.name] = n
+    si = members.get("storage_instance")
+    if not (isinstance(si, ast.Assign) and isinstance(si.value, ast.Constant) and si.value.value is None):
+        raise ExtractionError("%s: `storage_instance = None` not found" % outer)
+    init = members.get("__init__")
+    body = strip_doc(init.body) if isinstance(init, ast.FunctionDef) else []
+    if len(body) != 1 or not isinstance(body[0], ast.If) or body[0].orelse or len(body[0].body) != 1:
+        raise ExtractionError("%s.__init__: not the single guarded creation of the store" % outer)
+    test = ast.unparse(body[0].test)
+    if test == "not %s.storage_instance" % outer:
+        is_none = False
+    elif test == "%s.storage_instance is None" % outer:
+        is_none = True
+    else:
+        raise ExtractionError("%s.__init__: unrecognised creation guard `%s`" % (outer, test))
+    if not re.fullmatch(r"%s\.storage_instance = %s\.__NetworkXGraphStorage\((logger=)?logger\)" % (outer, outer), ast.unparse(body[0].body[0])):
+        raise ExtractionError("%s.__init__: unrecognised creation statement `%s`" % (outer, ast.unparse(body[0].body[0])))
+    ga = members.get("__getattr__")
+    if not (isinstance(ga, ast.FunctionDef) and [ast.unparse(x) for x in strip_doc(ga.body)] == ["return getattr(self.storage_instance, name)"]):
+        raise ExtractionError("%s.__getattr__: does not forward to the current storage_instance" % outer)
+    # nothing else may replace the store, its lock, or re-initialise it
+    for n in ast.walk(tree):
+        if isinstance(n, ast.Attribute) and n.attr == "storage_instance" and isinstance(n.ctx, (ast.Store, ast.Del)) \
+                and n is not body[0].body[0].targets[0]:
+            raise ExtractionError("%s: storage_instance is assigned outside the creation guard (line %d)" % (rel_of(tree), n.lineno))
+    for fn in cls.body:
+        if isinstance(fn, ast.FunctionDef) and fn.name != "__init__":
+            for n in ast.walk(fn):
+                if isinstance(n, ast.Attribute) and isinstance(n.value, ast.Name) and n.value.id == "self":
+                    if n.attr == "lock" and isinstance(n.ctx, (ast.Store, ast.Del)):
+                        raise ExtractionError("%s store, %s: the lock object is replaced" % (flavour, fn.name))
+                    if n.attr in ("__init__", "__dict__", "__class__"):
+                        raise ExtractionError("%s store, %s: re-initialises / rewires the store object" % (flavour, fn.name))
+    if cls.bases or cls.keywords:
+        raise ExtractionError("%s store class has base classes: truthiness cannot be read off the class body" % flavour)
+    falsy = any(isinstance(fn, ast.FunctionDef) and fn.name in ("__len__", "__bool__") for fn in cls.body) or \
+        any(isinstance(n, ast.Assign) and any(isinstance(t, ast.Name) and t.id in ("__len__", "__bool__") for t in n.targets) for n in cls.body)
+    return {"test_is_none": is_none, "falsy_capable": falsy, "weak": (not is_none) and falsy,
+            "guard_line": body[0].lineno, "first": oc.lineno, "last": oc.end_lineno}
+
+
+def rel_of(tree):
+    return "module"
+
+
 def extract():
     """-> (methods: [(name, kind, stmt_text)], lines: {flavour: {lineno: [micro]}}, ranges, report)"""
     methods, lines, ranges, spans = [], {}, {}, {}
@@ -298,7 +360,10 @@ def extract():
         cls = inner[0]
         _check_init(flavour, cls)
         tr = Tr(flavour, src, cls)
-        ranges[flavour] = {"file": rel, "first": cls.lineno, "last": cls.end_lineno, "methods": {}}
+        sg = _singleton(flavour, tree, oc, cls)
+        ranges[flavour] = {"file": rel, "first": cls.lineno, "last": cls.end_lineno, "methods": {},
+                           "shell": [oc.lineno, oc.end_lineno], "singleton": sg}
+        tr.lines.setdefault(sg["guard_line"], []).append("ctor %s" % ("true" if sg["weak"] else "false"))
         for fn in cls.body:
             if isinstance(fn, ast.Expr) and isinstance(fn.value, ast.Constant):
                 continue
@@ -326,7 +391,8 @@ def ranges_only():
         tree, src = parse(rel)
         oc = find_class(tree, outer)
         cls = [n for n in oc.body if isinstance(n, ast.ClassDef) and n.name == INNER][0]
-        ranges[flavour] = {"file": rel, "first": cls.lineno, "last": cls.end_lineno, "methods": {}}
+        ranges[flavour] = {"file": rel, "first": cls.lineno, "last": cls.end_lineno, "methods": {},
+                           "shell": [oc.lineno, oc.end_lineno]}
         for fn in cls.body:
             if isinstance(fn, ast.FunctionDef):
                 ranges[flavour]["methods"][fn.name] = [fn.lineno, fn.end_lineno]
@@ -351,6 +417,13 @@ def generate():
     body += "/-- public methods that take the lock -/\ndef locking : List (String × Stmt) := %s\n\n" % table("locking")
     body += "/-- public methods that never touch the lock -/\ndef lockfree : List (String × Stmt) := %s\n\n" % table("lockfree")
     body += "/-- private helpers called with the lock held -/\ndef helpers : List (String × Stmt) := %s\n\n" % table("helper")
-    body += "def methods : List (String × Stmt) := locking ++ lockfree ++ helpers\n"
+    body += "def methods : List (String × Stmt) := locking ++ lockfree ++ helpers\n\n"
+    body += ("/-- the shells' singleton creation: (store, guard tests `is None`, the store class defines __len__/__bool__) -/\n"
+             "def singletons : List (String × Bool × Bool) := %s\n\n" % lean_list(
+                 ["(%s, %s, %s)" % (lean_str(fl), "true" if ranges[fl]["singleton"]["test_is_none"] else "false",
+                                    "true" if ranges[fl]["singleton"]["falsy_capable"] else "false") for fl in FILES]))
+    body += ("/-- constructing an importer / graph object: one evaluation of the creation guard -/\n"
+             "def shellCtor : List (String × Stmt) := %s\n" % lean_list(
+                 ["(%s, .prim (.ctor %s) false)" % (lean_str(fl), "true" if ranges[fl]["singleton"]["weak"] else "false") for fl in FILES]))
     changed = emit("LockCfg", body, header="import FimVerif.Model.Lock\n")
     return {"methods": {n: k for n, k, _ in methods}, "lines": lines, "ranges": ranges, "spans": spans, "changed": changed}
